@@ -250,6 +250,7 @@ func genStrCase(g *Rng, i int) StrCase {
 		c.Ops = append(c.Ops, StrOp{K: "add", W: g.Range(1, 6)})
 	}
 	nadd := n
+	flagOff := map[int]bool{} // backends currently marked unhealthy (tracked for round robin)
 	pickOp := func() StrOp {
 		op := StrOp{K: "pick", Remote: fmt.Sprintf("%s:%d", g.PickS([]string{"10.1.1.1", "10.1.1.2", "[2001:db8::5]", "198.51.100.7"}), g.Range(1024, 65000)),
 			Path: g.PickS([]string{"/", "/a/b", "/x?y=1", "/%41"})}
@@ -321,7 +322,9 @@ func genStrCase(g *Rng, i int) StrCase {
 			for x := 0; x < k; x++ {
 				c.Ops = append(c.Ops, pickOp())
 			}
-			if kind == 0 && g.Chance(40) {
+			// concurrent pickers only while every backend is eligible: with skipping, the number of
+			// counter ticks a concurrent phase consumes depends on the interleaving
+			if kind == 0 && len(flagOff) == 0 && g.Chance(40) {
 				gor := []int{2, 4, 8, 16, 64}[g.Intn(5)]
 				c.Ops = append(c.Ops, StrOp{K: "cpick", G: gor, M: 6720 / gor}) // 6720 = 64*105 is a multiple of every pool size 1..8
 			}
@@ -334,9 +337,17 @@ func genStrCase(g *Rng, i int) StrCase {
 			c.Ops = append(c.Ops, StrOp{K: "add", W: g.Range(1, 6)})
 			nadd++
 		case x < 6:
-			c.Ops = append(c.Ops, StrOp{K: "rm", ID: g.Range(1, nadd)})
+			id := g.Range(1, nadd)
+			c.Ops = append(c.Ops, StrOp{K: "rm", ID: id})
+			delete(flagOff, id)
 		default:
-			c.Ops = append(c.Ops, StrOp{K: "flag", ID: g.Range(1, nadd), F: g.Chance(50)})
+			id, f := g.Range(1, nadd), g.Chance(50)
+			c.Ops = append(c.Ops, StrOp{K: "flag", ID: id, F: f})
+			if f {
+				delete(flagOff, id)
+			} else {
+				flagOff[id] = true
+			}
 		}
 	}
 	if kind == 4 && g.Chance(30) {
